@@ -478,21 +478,23 @@ def check_cond_row(row, dd, others, perplexity, feasible=True, extra_mass=0.0, d
         if abs(H - math.log(perplexity)) > 1e-4:
             return "row entropy %.9g differs from log(perplexity) = %.9g by more than 1e-4 (perplexity %.6g instead of %.6g)" % (
                 H, math.log(perplexity), math.exp(H), perplexity)
-    # Gaussian shape: log p_j + beta d_j constant
-    big = [j for j in others if row[j] > 1e-200]
+    # Gaussian shape: log p_j + beta d_j constant.  Only entries whose raw kernel value exp(-beta d_j) is a normal
+    # double (beta d_j < 680) and that are not negligible in the row take part (denormals carry few bits).
+    big = [j for j in others if row[j] > 1e-9]
     if len(big) >= 3:
         j0 = max(big, key=lambda j: row[j])
         j1 = min(big, key=lambda j: row[j])
         if dd[j1] != dd[j0]:
             beta = -(math.log(row[j1]) - math.log(row[j0])) / (dd[j1] - dd[j0])
-            for j in big:
-                lhs = math.log(row[j]) - math.log(row[j0])
-                rhs = -beta * (dd[j] - dd[j0])
-                # the implementation's squared distances carry a rounding error of a few ulps of dscale
-                # (norms + norms - 2<x,y>; sqrt then square); beta multiplies it
-                if abs(lhs - rhs) > 1e-6 * (1.0 + abs(lhs) + abs(rhs)) + abs(beta) * 1e-13 * dscale:
-                    return ("row is not a Gaussian kernel of the squared distances: log(p_%d/p_%d) = %.9g, "
-                            "-beta (d_%d - d_%d) = %.9g" % (j, j0, lhs, j, j0, rhs))
+            if all(abs(beta) * dd[j] < 680 for j in big):
+                for j in big:
+                    lhs = math.log(row[j]) - math.log(row[j0])
+                    rhs = -beta * (dd[j] - dd[j0])
+                    # the implementation's squared distances carry a rounding error of a few ulps of dscale
+                    # (norms + norms - 2<x,y>; sqrt then square); beta multiplies it
+                    if abs(lhs - rhs) > 1e-6 * (1.0 + abs(lhs) + abs(rhs)) + abs(beta) * 1e-13 * dscale:
+                        return ("row is not a Gaussian kernel of the squared distances: log(p_%d/p_%d) = %.9g, "
+                                "-beta (d_%d - d_%d) = %.9g" % (j, j0, lhs, j, j0, rhs))
     return None
 
 
